@@ -1,4 +1,5 @@
 """C17 — images arrive intact, typed and in order."""
+import common
 import base64
 import random
 import re
@@ -130,7 +131,7 @@ def project(r, case):
 
 
 def run(out, tier, seed, model_ok):
-    n = 1200 if tier == "quick" else 12000
+    n = common.deepen(1200 if tier == "quick" else 12000)
     cs = [image_case(seed * 1000003 + i, big=(tier == "thorough" or i % 100 == 0)) for i in range(n)]
     run_ = A.ApiRun(out, "C17", model_ok, project, observers=[intact], name="images")
     run_.run(cs, nontrivial=lambda c, r: len(c["imgs"]) >= 1)
